@@ -730,6 +730,35 @@ def r9(k: Kit) -> None:
                   'tasks reading the same source; its chunks reach the '
                   'channel out of order', fd.loc(fd.node))
     rep.floor('C07.R9', 'task-fed readers', n, 2)
+    # a chunk taken from the source is always handed on
+    m = 0
+    for cls in idx.module('process').classes.values():
+        af = cls.methods.get('_feed')
+        if af is None or not af.is_async or 'Reader' not in cls.name:
+            continue
+        g = k.cfg(af)
+        reads = [nd for nd, c in k.call_nodes(af, lambda c: is_call(c, 'read'))]
+        fed = [nd.id for nd, c in k.call_nodes(
+            af, lambda c: is_call(c, 'feed_data') or is_call(c, 'feed_eof'))]
+        for rd_ in reads:
+            m += 1
+            seen = g.reachable(rd_.id, blocked_nodes=fed, follow_exc=False)
+            lost = g.exit in seen or any(
+                rd_.id == b for a in seen for b, lab in g.succ[a]
+                if lab != 'exc')
+            w = g.path(rd_.id, g.exit, blocked_nodes=fed, follow_exc=False)
+            rep.check(not lost, 'C07.R9',
+                      key(af, 'chunk read is fed or is the EOF'),
+                      'every path from read() leads to feed_data / feed_eof '
+                      'before the next read or the end of the task',
+                      f'{cls.qual}._feed can drop what read() returned '
+                      '(leave the loop or read again without feed_data / '
+                      'feed_eof): the source has been consumed, so that '
+                      'chunk is missing from the channel stream - e.g. when '
+                      'writing was paused by another stream while the read '
+                      'was outstanding', k.loc(af, rd_),
+                      g.describe_path(w) if w else None)
+    rep.floor('C07.R9', 'source reads in feed tasks', m, 2)
 
 
 def r10(k: Kit) -> None:
